@@ -10,7 +10,8 @@ META = {
         "callbacks on the dispatch condition, per message variant, in the client map and value tasks and the hosted map and value "
         "downlinks; R2 sibling cross-check: for the messages a lane can produce (update/remove/clear) both implementations reach the same "
         "callbacks; R3 on_synced fires on the Linked->Synced transition with the state of that moment; R4 unlinked handling; "
-        "R5 panic audit of the notification handlers."),
+        "R5 panic audit of the notification handlers. R9 every site that leaves the linked states (Unlinked notification, read failure, connect) empties the hosted downlink's state."
+),
     "does_not_decide": "equality with a reference fold for all sequences; that old/new values are right beyond 'the value returned by the mutation is the one passed'",
 }
 
